@@ -761,6 +761,16 @@ def discharge(ctx, body, p, ev, kind):
                     a0 = strip_refs(a)
                     for c in conds_before(p, bb):
                         t = c.term
+                        if isinstance(t, tuple) and t and t[0] == "discr" and is_call(strip_refs(t[1]), "Ord>::cmp", "::cmp") and len(call_args(strip_refs(t[1]))) == 2 and c.fact[0] == "eq" \
+                                and c.fact[1] in (255, -1, 1, 0) and "Ord" in strip_refs(t[1])[1]:
+                            # x.cmp(&y) came out Less / Greater / Equal (integers: the lengths compared are usize)
+                            x_, y_ = (deval(u) for u in call_args(strip_refs(t[1])))
+                            l, r = (x_, y_) if c.fact[1] in (255, -1, 0) else (y_, x_)
+                            if deval(a0) == l and ((b == LEN and length_of(r) is not None and length_of(r) == c0) or (b != LEN and r == deval(b))):
+                                return True
+                            if c.fact[1] == 0 and deval(a0) == r and ((b == LEN and length_of(l) is not None and length_of(l) == c0) or (b != LEN and l == deval(b))):
+                                return True
+                            continue
                         if not (isinstance(t, tuple) and t and t[0] == "binop" and t[1] in ("Lt", "Le", "Gt", "Ge") and c.fact[0] == "eq" and isinstance(c.fact[1], bool)):
                             continue
                         op, l, r = t[1], strip_refs(t[2]), strip_refs(t[3])
